@@ -168,6 +168,14 @@ impl NodeDrive {
                         );
                     } else {
                         log::debug!("To reclame_space nothing need to be done on delete");
+                        // The key is not part of the new files, its disk address is no longer
+                        // valid: forget the tombstone so a later snapshot does not write through it
+                        let mut map = db.map.write().unwrap();
+                        if let Some(current) = map.get(&key) {
+                            if current.state == ValueStatus::Deleted {
+                                map.remove(&key);
+                            }
+                        }
                     }
                 }
             }
